@@ -52,7 +52,7 @@ type Unrolled struct {
 }
 
 func NewChecker(env *core.Env, m *Machine, prop string) *Checker {
-	return &Checker{env: env, m: m, prop: prop, MaxPaths: 30000, values: map[string][]string{}}
+	return &Checker{env: env, m: m, prop: prop, MaxPaths: 8000, values: map[string][]string{}}
 }
 
 // dropChunk releases what is only needed while a chunk of sources is processed.
